@@ -242,16 +242,22 @@ func JudgeOpts(rn *logq.Runner, db *logq.DB, ch *chsql.DB, req *logq.Request, sq
 		k := normKey(e.Labels, unw)
 		gotByKey[k] = append(gotByKey[k], pt{key: k, ts: e.TimestampNS, v: e.Value})
 	}
-	for k, ps := range gotByKey {
-		// one point per series and timestamp
-		seenTs := map[int64]float64{}
-		for _, p := range ps {
-			if v0, dup := seenTs[p.ts]; dup {
-				v.Kind, v.Detail = "out-timestamp-twice", fmt.Sprintf("series %s: two output points at %d (values %v and %v)", k, p.ts, v0, p.v)
-				return v
-			}
-			seenTs[p.ts] = p.v
+	// one point per output series (fingerprint) and timestamp
+	type fpTs struct {
+		fp  uint64
+		key string
+		ts  int64
+	}
+	seenTs := map[fpTs]float64{}
+	for _, e := range out.Entries {
+		id := fpTs{e.Fingerprint, logq.CanonLabels(e.Labels), e.TimestampNS}
+		if v0, dup := seenTs[id]; dup {
+			v.Kind, v.Detail = "out-timestamp-twice", fmt.Sprintf("series %s (fingerprint %d): two output points at %d (values %v and %v)", normKey(e.Labels, unw), e.Fingerprint, e.TimestampNS, v0, e.Value)
+			return v
 		}
+		seenTs[id] = e.Value
+	}
+	for k, ps := range gotByKey {
 		es, ok := expByKey[k]
 		if !ok {
 			v.Kind, v.Detail = "out-unexpected-series", fmt.Sprintf("output series %s (e.g. value %v at %d) is not a series the definition produces; expected series: %v", k, ps[0].v, ps[0].ts, keys(expByKey))
